@@ -31,13 +31,15 @@ type OnceH struct {
 	Batches    [][]uint64 `json:"batches"` // versions of the snapshots of each distinct batch
 	Deliveries []Delivery `json:"deliveries"`
 	Factories  int        `json:"factories"`
+	TickMs     int        `json:"tick_ms"` // dispatch interval of the task manager
 }
 
-const ruleOnce = "tier 1 (at-most-once): a never-started agent with its cache, the real BatchProcessor with 1-3 counting task factories and a recording tasks manager; rapid draws 1-6 distinct batches of 1-60 signed snapshots of realistic size (32-byte digests, 64-byte signatures) and a delivery list in which each batch arrives 1-6 times 'from' drawn peers with drawn TTLs, in a drawn order, interleaved with the other batches. Oracle: tasks created per distinct batch per factory <= 1, and every forwarded copy (re-published on the outgoing bus) belongs to a first delivery. Non-trivial: some batch is delivered >=2 times. distinct = FNV-64 of the case."
+const ruleOnce = "tier 1 (at-most-once): a never-started agent with its cache, the real BatchProcessor with 1-3 counting task factories and the REAL SimpleTasksManager (started, dispatch tick 2/5/20 ms, 10 tasks per tick) whose tasks record for which batch they run; rapid draws 1-6 distinct batches of 1-60 signed snapshots of realistic size (32-byte digests, 64-byte signatures) and a delivery list in which each batch arrives 1-6 times 'from' drawn peers with drawn TTLs, in a drawn order, interleaved with the other batches. Oracle: tasks created per distinct batch per factory <= 1, tasks EXECUTED per distinct batch per factory <= 1 and only for batches a task was created for, and every forwarded copy (re-published on the outgoing bus) belongs to a first delivery. Non-trivial: some batch is delivered >=2 times. distinct = FNV-64 of the case."
 
 type countingFactory struct {
 	mu    *sync.Mutex
-	seen  map[string]int
+	seen  map[string]int // tasks created per factory/batch
+	runs  map[string]int // tasks executed per factory/batch
 	which int
 }
 
@@ -51,10 +53,16 @@ func batchKey(b *protocol.BatchSnapshots) string {
 
 func (c countingFactory) New(ctx context.Context) gossip.Task {
 	b := ctx.Value("batch").(*protocol.BatchSnapshots)
+	k := fmt.Sprintf("%d/%s", c.which, batchKey(b))
 	c.mu.Lock()
-	c.seen[fmt.Sprintf("%d/%s", c.which, batchKey(b))]++
+	c.seen[k]++
 	c.mu.Unlock()
-	return func() error { return nil }
+	return func() error {
+		c.mu.Lock()
+		c.runs[k]++
+		c.mu.Unlock()
+		return nil
+	}
 }
 func (c countingFactory) Metrics() []prometheus.Collector { return nil }
 
@@ -74,6 +82,7 @@ func TestAtMostOnce(t *testing.T) {
 	pbt.Run(t, rec, func(rt *rapid.T) OnceH {
 		var h OnceH
 		h.Factories = rapid.IntRange(1, 3).Draw(rt, "factories")
+		h.TickMs = rapid.SampledFrom([]int{2, 5, 20}).Draw(rt, "tick")
 		next := uint64(0)
 		for i, n := 0, rapid.IntRange(1, 6).Draw(rt, "nbatches"); i < n; i++ {
 			var vs []uint64
@@ -121,16 +130,19 @@ func execOnce(h OnceH, rec *pbt.Rec) error {
 	conf.NodeName = "c18"
 	conf.Role = "auditor"
 	conf.CacheSize = 1 << 20
-	tasks := &recTasks{}
+	// the real task manager, as `qed agent` builds it (shorter tick so that a case takes milliseconds)
+	tasks := gossip.NewSimpleTasksManager(time.Duration(h.TickMs)*time.Millisecond, 10)
 	agent, err := gossip.NewDefaultAgent(conf, nil, nil, tasks, nil, nil)
 	if err != nil {
 		return &pbt.Unsettled{Why: "agent: " + err.Error()}
 	}
+	tasks.Start()
+	defer tasks.Stop()
 	mu := &sync.Mutex{}
-	seen := map[string]int{}
+	seen, runs := map[string]int{}, map[string]int{}
 	var tfs []gossip.TaskFactory
 	for i := 0; i < h.Factories; i++ {
-		tfs = append(tfs, countingFactory{mu, seen, i})
+		tfs = append(tfs, countingFactory{mu, seen, runs, i})
 	}
 	bp := gossip.NewBatchProcessor(agent, tfs, nil)
 	agent.In.Subscribe(gossip.BatchMessageType, bp, 255)
@@ -157,11 +169,23 @@ func execOnce(h OnceH, rec *pbt.Rec) error {
 		agent.In.Publish(&gossip.Message{Kind: gossip.BatchMessageType, TTL: d.TTL, Payload: payload, From: gossip.NewPeer(d.From, "127.0.0.1", 1, "server")})
 		time.Sleep(200 * time.Microsecond)
 	}
-	// wait until the processor is idle
+	// wait until the processor and the task manager are idle
+	progress := func() int {
+		mu.Lock()
+		defer mu.Unlock()
+		n := 0
+		for _, v := range seen {
+			n += v
+		}
+		for _, v := range runs {
+			n += v
+		}
+		return n
+	}
 	last, stable := -1, 0
-	for i := 0; i < 400 && stable < 8; i++ {
-		time.Sleep(5 * time.Millisecond)
-		if n := tasks.Len(); n == last {
+	for i := 0; i < 2000 && stable < 8; i++ {
+		time.Sleep(time.Duration(h.TickMs+3) * time.Millisecond)
+		if n := progress(); n == last && tasks.Len() == 0 {
 			stable++
 		} else {
 			last, stable = n, 0
@@ -182,6 +206,19 @@ func execOnce(h OnceH, rec *pbt.Rec) error {
 			return fmt.Errorf("tasks for batch %s were created %d times by one factory (the batch was delivered repeatedly)", k, n)
 		}
 	}
+	created, executed := 0, 0
+	for _, n := range seen {
+		created += n
+	}
+	for k, n := range runs {
+		executed += n
+		if n > 1 {
+			return fmt.Errorf("the task of factory/batch %s was executed %d times by the task manager (%d tasks created, tick %d ms)", k, n, created, h.TickMs)
+		}
+		if seen[k] == 0 {
+			return fmt.Errorf("a task ran for factory/batch %s, for which no task was created", k)
+		}
+	}
 	if fw := out.len(); fw > len(distinct) {
 		return fmt.Errorf("%d copies were forwarded for %d distinct batches", fw, len(distinct))
 	}
@@ -193,7 +230,8 @@ func execOnce(h OnceH, rec *pbt.Rec) error {
 	}
 	rec.Case(h, nt)
 	rec.Count("deliveries", int64(len(h.Deliveries)))
-	rec.Count("tasks_created", int64(tasks.Len()))
+	rec.Count("tasks_created", int64(created))
+	rec.Count("tasks_executed", int64(executed))
 	rec.Sample(len(h.Deliveries), h)
 	return nil
 }
